@@ -15,11 +15,16 @@ prop("C12",
                         "bins_geometry_cyl-arc": 100000, "bins_geometry_blocks": 30000, "bins_geometry_generic": 10000,
                         "tantheta_vs_contributing_pairs": 300000, "phi_within_half_view_step": 100000, "arc_correction_rows": 10000,
                         "arc_correction_uniform_bins": 10000, "tof_bins_checked": 1000, "symmetry_relations_checked": 50000,
-                        "cfg_tilt": 500, "cfg_view_mashing": 300, "cfg_axial_compression": 500, "cfg_tof_mashed": 100},
+                        "cfg_tilt": 500, "cfg_view_mashing": 300, "cfg_axial_compression": 500, "cfg_tof_mashed": 100,
+                        "cart_bins_checked": 1000000, "cart_bins_cyl-noarc": 500000, "cart_bins_blocks": 300000, "cart_bins_generic": 200000,
+                        "cart_bins_oblique": 500000, "cart_points_vs_get_LOR": 1000000, "cart_find_bin_exact": 800000,
+                        "cart_scanner_coordinate_inversions_cyl-noarc": 100000, "cart_scanner_coordinate_inversions_blocks": 30000,
+                        "cart_scanner_coordinates_vs_detector_positions": 200000, "cart_cfg_tilt": 200, "cart_cfg_tof": 100},
               "thorough": {"bins_roundtripped": 1000000000, "bins_geometry_checked": 500000000, "cfg_predefined_scanner": 4000,
                            "arc_correction_rows": 100000, "tof_bins_checked": 5000, "cfg_strided": 2000,
                            "bins_geometry_blocks": 30000000, "bins_geometry_generic": 10000000, "roundtrip_view_wrap": 500000,
-                           "lor_misses": 10000000}},
+                           "lor_misses": 10000000, "cart_bins_checked": 100000000, "cart_find_bin_exact": 50000000,
+                           "cart_scanner_coordinate_inversions_cyl-noarc": 1000000, "cart_scanner_coordinate_inversions_blocks": 300000}},
      rule=("case = one generated (scanner, sampling) configuration: even detector count 8..40 (thorough ..96/320), 1..5/8 rings, radius, DOI, "
            "ring spacing, intrinsic tilt, TOF; cylindrical (not arc-corrected / arc-corrected), blocks-on-cylindrical, or generic from a "
            "crystal map written by the harness (perturbed radii); span (odd, even, mixed GE), max ring difference, view mashing, TOF "
@@ -27,7 +32,7 @@ prop("C12",
            "(strided above 60000 / 250000 bins; 30000 in the thorough asan sub-sample; and above 10^7 bins x contributing detector pairs per bin) go through (1) bin->get_LOR->get_bin (sinogram-coordinate and two-point LOR) and (2) the "
            "comparison of get_s/get_phi/get_m/get_tantheta with the float64 line through the physical detector positions; plus (3) "
            "antisymmetry/monotonicity/sampling/TOF relations and (4) ArcCorrection on all views of one sinogram (every 3rd row constant, "
-           "others random).  non-trivial = configuration with >= 2 views and >= 3 tangential positions whose bins were round-tripped and "
+           "others random); (5) for bins of the detector-based classes without axial compression and view mashing (the documented domain of get_det_pos_pair_for_bin): find_cartesian_coordinates_of_detection against the bin's reported line, get_LOR, the detector positions and find_bin_given_cartesian_coordinates_of_detection; per configuration every (detector, ring) with two partners through find_cartesian_coordinates_given_scanner_coordinates and its inverse.  non-trivial = configuration with >= 2 views and >= 3 tangential positions whose bins were round-tripped and "
            "geometry-checked; distinct = distinct configuration descriptor"),
      technique=("runtime monitoring: per-configuration sweep of the real coordinate functions against an independent float64 model of the "
                 "detector positions and the round-trip rules of the statement, under ASan/UBSan/asserts and in the release build"),
@@ -37,7 +42,10 @@ prop("C12",
                  "detector positions recomputed independently in float64 (psi = 2 pi det/N + tilt, z = centred ring index x spacing; "
                  "detector map for blocks/generic) and averaged over get_all_det_pos_pairs_for_bin for compressed bins; index "
                  "antisymmetry, strict monotonicity, uniform arc-corrected sampling, TOF distances and bin boundaries, and ArcCorrection "
-                 "rows against a float64 overlap-interpolation reference (uniformity, integral over s) are checked per configuration"),
+                 "rows against a float64 overlap-interpolation reference (uniformity, integral over s) are checked per configuration; the two "
+                 "points find_cartesian_coordinates_of_detection reports for a bin (z counted from the first ring, as documented) must give the "
+                 "bin's own (s, phi, m, tan theta) and get_LOR line, be the model positions of its two detectors, and convert back to the bin "
+                 "(one-step rule); find_scanner_coordinates_given_cartesian_coordinates must return the (detector, ring) pair its inverse was given"),
      level_note=("trusted: the 60-line geometric model and the acceptance rules in harness/c12_coords.cxx.  Restrictions that follow "
                  "documented limits of the library: blocks/generic only span=1, no view mashing, no TOF (ProjDataInfoGeneric); "
                  "arc-corrected TOF data are round-tripped for the central TOF bin only (get_bin: 'TODO NO TOF YET'); HiDAC skipped "
@@ -45,7 +53,9 @@ prop("C12",
                  "permitted one-step tangential neighbour lies outside a truncated tangential range; obliqueness of axially compressed "
                  "bins whose contributing ring differences are not symmetric about the segment average (incomplete edge bins, even "
                  "'GE' spans) is compared with the documented segment-average model instead of the mean over contributing pairs.  "
-                 "Planted breaks caught in the quick tier (scratch worktree): m_offset sign and m_offset with the sampling of segment 0 "
+                 "The Cartesian-coordinate functions are only called where get_det_pos_pair_for_bin is documented to work (span 1, no view "
+                 "mashing); the order of their two points is not checked (a line; counted in cart_points_in_*_order); "
+                 "ProjDataInfoGenericNoArcCorr has no inverse functions.  Planted breaks caught in the quick tier (scratch worktree): m_offset sign and m_offset with the sampling of segment 0 "
                  "(*:axial-positions-not-centred-on-the-scanner, cyl-noarc:m-disagrees-with-detector-positions, roundtrip-*-reports-miss-"
                  "away-from-compressed-axial-edge); intrinsic tilt ignored in ProjDataInfoCylindricalNoArcCorr::get_bin "
                  "(cyl-noarc:roundtrip-sinogram-lor-more-than-one-step-or-other-segment-or-tof); ring origin num_rings/2 in the same "
